@@ -29,9 +29,10 @@ MStep ==
          isPush == nc2 > nc
          isRet  == nc2 < nc /\ how' = "ret" /\ nc2 > 0
          \* the statement and activation the effects of this step belong to
-         se == IF isRet THEN tc.cenv ELSE e
+         rc == IF isRet THEN RetCall(ctrl, nc2) ELSE tc
+         se == IF isRet THEN rc.cenv ELSE e
          sf == envs[se].fn
-         sn == IF isRet THEN tc.node ELSE n
+         sn == IF isRet THEN rc.node ELSE n
          \* what the body of a called lambda value reads belongs to the statement that wrote the lambda (the analysis
          \* passes a lambda's reads on to the defining statement), not to the calling statement
          readNames == IF n = 0 THEN {} ELSE UNION {NamesOfCell(e, c) : c \in (rd' \ lrd') \ {0}}
